@@ -112,51 +112,87 @@ fn parse_check(buf: &[u8]) {
 }
 
 // @props C15 C06
+// @tier quick
 // @fns StringFormatOptions::parse, consume_u32
-// @bound format specs of 1-4 bytes in shapes [1], [1,1], [1,1,1], [2,1,1], [1,1,1,1] over {< ^ > 0 1 9 . ? x e } space a} and 2-byte slots {U+00E9, U+0301}
+// @bound format specs in UTF-8 shape [1] over {< ^ > 0 1 9 . ? x e close-brace space a} and 2-byte slots {U+00E9, U+0301}
 // @assume ConstantPoolBuilder::add_string replaced by a stub that accepts every string (the pool is a HashMap; not the subject)
-// @timeout 1200
-// @mem 12
+// @timeout 1500
+// @mem 8
 #[kani::proof]
 #[kani::unwind(8)]
 #[kani::stub(ConstantPoolBuilder::add_string, stub_add_string)]
 #[kani::stub(std::hash::RandomState::new, stub_random_state)]
-fn c15_fmt_parse() {
-    {
-        let mut b = [0u8; 1];
-        put_spec(&mut b, 0);
-        parse_check(&b);
-    }
-    {
-        let mut b = [0u8; 2];
-        put_spec(&mut b, 0); put_spec(&mut b, 1);
-        parse_check(&b);
-    }
-    {
-        let mut b = [0u8; 3];
-        put_spec(&mut b, 0); put_spec(&mut b, 1); put_spec(&mut b, 2);
-        parse_check(&b);
-    }
-    {
-        let mut b = [0u8; 4];
-        put2(&mut b, 0); put_spec(&mut b, 2); put_spec(&mut b, 3);
-        parse_check(&b);
-    }
+fn c15_fmt_parse_s1() {
+    let mut b = [0u8; 1];
+    put_spec(&mut b, 0);
+    parse_check(&b);
 }
 
 // @props C15 C06
+// @tier quick
 // @fns StringFormatOptions::parse, consume_u32
-// @bound format specs of 4 ASCII bytes over {< ^ > 0 1 9 . ? x e } space a}
-// @assume ConstantPoolBuilder::add_string replaced by a stub that accepts every string
-// @timeout 1800
-// @mem 16
-// @tier thorough
+// @bound format specs in UTF-8 shape [1,1] over {< ^ > 0 1 9 . ? x e close-brace space a} and 2-byte slots {U+00E9, U+0301}
+// @assume ConstantPoolBuilder::add_string replaced by a stub that accepts every string (the pool is a HashMap; not the subject)
+// @timeout 1500
+// @mem 8
 #[kani::proof]
 #[kani::unwind(8)]
 #[kani::stub(ConstantPoolBuilder::add_string, stub_add_string)]
 #[kani::stub(std::hash::RandomState::new, stub_random_state)]
-fn c15_fmt_parse4() {
+fn c15_fmt_parse_s11() {
+    let mut b = [0u8; 2];
+    put_spec(&mut b, 0); put_spec(&mut b, 1);
+    parse_check(&b);
+}
+
+// @props C15 C06
+// @tier quick
+// @fns StringFormatOptions::parse, consume_u32
+// @bound format specs in UTF-8 shape [1,1,1] over {< ^ > 0 1 9 . ? x e close-brace space a} and 2-byte slots {U+00E9, U+0301}
+// @assume ConstantPoolBuilder::add_string replaced by a stub that accepts every string (the pool is a HashMap; not the subject)
+// @timeout 1500
+// @mem 8
+#[kani::proof]
+#[kani::unwind(8)]
+#[kani::stub(ConstantPoolBuilder::add_string, stub_add_string)]
+#[kani::stub(std::hash::RandomState::new, stub_random_state)]
+fn c15_fmt_parse_s111() {
+    let mut b = [0u8; 3];
+    put_spec(&mut b, 0); put_spec(&mut b, 1); put_spec(&mut b, 2);
+    parse_check(&b);
+}
+
+// @props C15 C06
+// @tier quick
+// @fns StringFormatOptions::parse, consume_u32
+// @bound format specs in UTF-8 shape [2,1,1] over {< ^ > 0 1 9 . ? x e close-brace space a} and 2-byte slots {U+00E9, U+0301}
+// @assume ConstantPoolBuilder::add_string replaced by a stub that accepts every string (the pool is a HashMap; not the subject)
+// @timeout 1500
+// @mem 8
+#[kani::proof]
+#[kani::unwind(8)]
+#[kani::stub(ConstantPoolBuilder::add_string, stub_add_string)]
+#[kani::stub(std::hash::RandomState::new, stub_random_state)]
+fn c15_fmt_parse_s211() {
+    let mut b = [0u8; 4];
+    put2(&mut b, 0); put_spec(&mut b, 2); put_spec(&mut b, 3);
+    parse_check(&b);
+}
+
+// @props C15 C06
+// @tier thorough
+// @fns StringFormatOptions::parse, consume_u32
+// @bound format specs in UTF-8 shape [1,1,1,1] over {< ^ > 0 1 9 . ? x e close-brace space a} and 2-byte slots {U+00E9, U+0301}
+// @assume ConstantPoolBuilder::add_string replaced by a stub that accepts every string (the pool is a HashMap; not the subject)
+// @timeout 1500
+// @mem 8
+#[kani::proof]
+#[kani::unwind(8)]
+#[kani::stub(ConstantPoolBuilder::add_string, stub_add_string)]
+#[kani::stub(std::hash::RandomState::new, stub_random_state)]
+fn c15_fmt_parse_s1111() {
     let mut b = [0u8; 4];
     put_spec(&mut b, 0); put_spec(&mut b, 1); put_spec(&mut b, 2); put_spec(&mut b, 3);
     parse_check(&b);
 }
+
